@@ -14,6 +14,15 @@ sys.path.insert(0, os.path.join(os.path.dirname(os.path.abspath(__file__)), "pro
 import vlib  # noqa: E402
 
 
+def cleanup(ctx):
+    """Scratch build directories can hold gigabytes of generated behaviours: never leave one behind
+    (set VERIF_KEEP=1 to keep it for debugging)."""
+    import os
+    import shutil
+    if not os.environ.get("VERIF_KEEP"):
+        shutil.rmtree(ctx.build, ignore_errors=True)
+
+
 def main():
     ap = argparse.ArgumentParser()
     ap.add_argument("cmd", choices=["check", "replay", "selftest"])
@@ -36,11 +45,14 @@ def main():
             rc = mod.run(ctx)
     except vlib.Inconclusive as e:
         print("INCONCLUSIVE property=%s: %s" % (a.pid, e))
+        cleanup(ctx)
         sys.exit(2)
     except Exception:
         traceback.print_exc()
         print("INCONCLUSIVE property=%s: driver error" % a.pid)
+        cleanup(ctx)
         sys.exit(2)
+    cleanup(ctx)
     sys.exit(rc)
 
 
